@@ -1,6 +1,7 @@
 //@ tu: common/util.c
 //@ loops: utilctl.loops
 //@ enforce: ut_self_net_ns
+//@ defs: -DXVU_NS_CAP=256
 //@ props: C18 C08
 //@ expect: postcondition>=3 canary=4
 #include "_unit_util.h"
